@@ -22,7 +22,7 @@
 //!
 //! Model state: one `i128` nanosecond count with the range invariant (no niche-bearing fields, no loops, no allocation, no
 //! error values with drop glue) plus one ghost static, the clock value a harness may fix. `model_from_nanos`, `model_nanos`,
-//! `model_set_clock` are for harnesses only.
+//! `model_set_clock`, `model_duration_nanos` are for harnesses only.
 
 /// Smallest / largest second of a `Timestamp` (documented range of jiff 0.2).
 pub const MODEL_MIN_SECOND: i64 = -377705023201;
@@ -88,9 +88,30 @@ impl Timestamp {
     }
 }
 
+// One-entry memo of the last Duration -> nanoseconds conversion. Semantically invisible (a pure function is cached); it
+// exists because CBMC otherwise builds one 128-bit multiplier per `+`/`-` and per harness oracle and the SAT solver then
+// has to prove identical multipliers equivalent (measured: 105-500 s per query). With the memo every use of the same
+// Duration shares ONE product. Distinctive initial key (never equal to a program constant).
+static mut MEMO: (u64, u32, i128) = (0x5eed_0000_0000_0001, 0x7fff_fff1, 0);
+
+/// harness helper: exact nanosecond count of a std Duration, `secs * 10^9 + subsec_nanos` (what the model's `+`/`-` use).
+/// Checked against independent arithmetic by harness `oracle_duration_nanos_exact` of unit u5_validators.
+pub fn model_duration_nanos(d: core::time::Duration) -> i128 {
+    duration_nanos(d)
+}
+
 fn duration_nanos(d: core::time::Duration) -> i128 {
-    // u64::MAX * 10^9 + 999_999_999 < 2^94: no overflow in i128
-    d.as_secs() as i128 * 1_000_000_000 + d.subsec_nanos() as i128
+    let (s, n) = (d.as_secs(), d.subsec_nanos());
+    unsafe {
+        if MEMO.0 == s && MEMO.1 == n {
+            return MEMO.2;
+        }
+        // u64::MAX * 10^9 + 999_999_999 < 2^94: exact in i128. `wrapping_mul` only to keep Kani from emitting an i128
+        // multiplication-overflow check (a 256-bit multiplier for CBMC); it cannot wrap.
+        let v = (s as i128).wrapping_mul(1_000_000_000) + n as i128;
+        MEMO = (s, n, v);
+        v
+    }
 }
 
 impl PartialEq for Timestamp {
